@@ -409,6 +409,8 @@ func classify(renterErr error, le []logEntry) string {
 		return "VDecode"
 	case has("not accepting contracts"):
 		return "VNotAccepting"
+	case has("challenge signature must be set"), has("renter signature must be set"):
+		return "VInvalid"
 	case has("challenge"):
 		return "VChallenge"
 	case has("prices expired"), has("prices are invalid"), has("price table invalid"):
@@ -419,10 +421,10 @@ func classify(renterErr error, le []logEntry) string {
 		return "VPayment"
 	case has("renter funding"), has("expected renter to fund"):
 		return "VFunds"
-	case has("host funding error"), has("failed to fund"), has("failed to broadcast"), has("failed to update"), has("failed to add"), has("failed to get contract element"), has("failed to get transaction set"), has("satisfied policies"):
-		return "VChain"
 	case has("failed to revise contract"), has("failed to credit"), has("failed to add contract"):
 		return "VContractor"
+	case has("host funding error"), has("failed to fund"), has("failed to broadcast"), has("failed to update"), has("failed to add"), has("failed to get contract element"), has("failed to get transaction set"), has("satisfied policies"):
+		return "VChain"
 	case has("invalid signature"):
 		return "VSig"
 	case code == proto4.ErrorCodeBadRequest:
